@@ -1,5 +1,6 @@
 import ChaiVerif.Drv.Util
 import ChaiVerif.Model.Chai.Eval
+import ChaiVerif.Model.Chai.Opt
 namespace ChaiVerif.Drv
 open ChaiVerif ChaiVerif.Chai
 
@@ -62,14 +63,16 @@ partial def buildNode (sx : Sx) (b : Build) : Option (Node × Build) :=
       | some (n, b1) => many r b1 (n :: acc)
       | none => none
   match sx with
-  | .list [.atom "int", .atom v] => (parseInt? v).map (fun i => lit (.int i) b)
+  | .list [.atom "int", .atom v] =>
+      -- a negative literal is spelled `(-5)`: the parser sees a prefix minus on the constant 5
+      (parseInt? v).map (fun i => if i < 0 then (let (n, b1) := lit (.int (-i)) b; (.pre .neg n, b1)) else lit (.int i) b)
   | .list [.atom "bool", .atom v] => some (lit (.bool (v == "1")) b)
   | .list [.atom "str", .atom v] => some (lit (.str (v.toNat?.getD 0)) b)
   | .list [.atom "id", .atom x] => some (.id b.nextNid (varName x), { b with nextNid := b.nextNid + 1 })
   | .list [.atom "fid", .atom x] => some (.id b.nextNid (funName x), { b with nextNid := b.nextNid + 1 })
   | .list [.atom "var", .atom x] => some (.varDecl (varName x), b)
   | .list [.atom "ref", .atom x] => some (.refDecl (varName x), b)
-  | .list [.atom "decl", .atom x, e] => (buildNode e b).map (fun p => (.assignDecl (varName x) p.1, p.2))
+  | .list [.atom "decl", .atom x, e] => (buildNode e b).map (fun p => (.eq .assign (.varDecl (varName x)) p.1, p.2))
   | .list [.atom "eq", .atom op, l, r] => do
       let o ← eqOf? op; let (ln, b1) ← buildNode l b; let (rn, b2) ← buildNode r b1; pure (.eq o ln rn, b2)
   | .list [.atom "bin", .atom op, l, r] => do
@@ -77,6 +80,7 @@ partial def buildNode (sx : Sx) (b : Build) : Option (Node × Build) :=
   | .list [.atom "pre", .atom op, a] => do let o ← preOf? op; let (an, b1) ← buildNode a b; pure (.pre o an, b1)
   | .list [.atom "and", l, r] => do let (ln, b1) ← buildNode l b; let (rn, b2) ← buildNode r b1; pure (.and ln rn, b2)
   | .list [.atom "or", l, r] => do let (ln, b1) ← buildNode l b; let (rn, b2) ← buildNode r b1; pure (.or ln rn, b2)
+  | .list [.atom "block"] => some (.block [.noop], b)               -- `{ }` parses as a block holding one Noop
   | .list (.atom "block" :: xs) => (many xs b []).map (fun p => (.block p.1, p.2))
   | .list [.atom "if", c, t, e] => do
       let (cn, b1) ← buildNode c b; let (tn, b2) ← buildNode t b1; let (en, b3) ← buildNode e b2; pure (.ifN cn tn en, b3)
@@ -179,6 +183,72 @@ partial def printSx (sx : Sx) : String :=
   | .list [.atom "noop"] => ""
   | _ => "??"
 
+/-! ### printing the model's syntax tree in the normal form of harness/optree.cpp -/
+def nameStr (x : Name) : String :=
+  if x < 1000 then s!"x{x}" else if x < 2000 then s!"f{x - 1000}"
+  else match x with | 2000 => "pr" | 2001 => "throw" | 2002 => "is_var_undef" | _ => s!"cb{x - 2100}"
+
+def builtinName (l : Loc) : String :=
+  match l with | 0 => "pr" | 1 => "throw" | 2 => "is_var_undef" | _ => s!"cb{l - 3}"
+
+def litStr (L : Lits) (l : Loc) : String :=
+  match litOf L l with
+  | .int i => s!"(int {i})" | .bool b => if b then "(bool 1)" else "(bool 0)" | .str k => s!"(str {k})"
+  | .builtin _ => s!"(id {builtinName l})" | .native _ => s!"(id {builtinName l})"
+  | _ => "(const?)"
+
+def tyStr : TyTag → String
+  | .int => "int" | .bool => "bool" | .string => "string" | .evalError => "eval_error" | .exception_ => "exception"
+
+def eqStr : EqOp → String
+  | .assign => "=" | .refAssign => ":=" | .addAsg => "+=" | .subAsg => "-=" | .mulAsg => "*="
+def preStr : PreOp → String
+  | .neg => "neg" | .not => "not" | .inc => "inc" | .dec => "dec"
+
+partial def showNode (L : Lits) (ρ : List FunDef) (n : Node) : String :=
+  let sn := showNode L ρ
+  let many (xs : List Node) : String := String.join (xs.map (fun x => " " ++ sn x))
+  let names (xs : List Name) : String := "(" ++ " ".intercalate (xs.map nameStr) ++ ")"
+  match n with
+  | .const l => litStr L l
+  | .id _ x => s!"(id {nameStr x})"
+  | .varDecl x => s!"(var {nameStr x})"
+  | .refDecl x => s!"(ref {nameStr x})"
+  | .assignDecl x e => s!"(decl {nameStr x} {sn e})"
+  | .eq op l r => s!"(eq {eqStr op} {sn l} {sn r})"
+  | .bin op a b => s!"(bin {binStr op} {sn a} {sn b})"
+  | .foldR op a c => s!"(foldr {binStr op} {sn a} {litStr L c})"
+  | .pre op a => s!"(pre {preStr op} {sn a})"
+  | .and a b => s!"(and {sn a} {sn b})"
+  | .or a b => s!"(or {sn a} {sn b})"
+  | .block xs => "(block" ++ many xs ++ ")"
+  | .scopeless xs => "(scopeless" ++ many xs ++ ")"
+  | .ifN c t e => s!"(if {sn c} {sn t} {sn e})"
+  | .whileN c b => s!"(while {sn c} {sn b})"
+  | .forN i c s b => s!"(for {sn i} {sn c} {sn s} {sn b})"
+  | .cfor x lo hi b => s!"(cfor {nameStr x} (int {lo}) (int {hi}) {sn b})"
+  | .brk => "(break)" | .cont => "(continue)"
+  | .ret none => "(return)"
+  | .ret (some e) => s!"(return {sn e})"
+  | .call u f as => (if u then "(ucall " else "(call ") ++ sn f ++ many as ++ ")"
+  | .lambda fid caps =>
+      (match ρ[fid]? with
+       | some fd => s!"(lambda {names (caps.map (·.2))} {names fd.params} {sn fd.body})"
+       | none => "(lambda?)")
+  | .def_ name fid =>
+      (match ρ[fid]? with
+       | some fd => s!"(def {nameStr name} {names fd.params} {sn fd.body})"
+       | none => "(def?)")
+  | .tryN b cs fin =>
+      "(try " ++ sn b ++ String.join (cs.map (fun c => match c with
+        | (none, blk) => s!" (catch {sn blk})"
+        | (some (x, none), blk) => s!" (catch {nameStr x} {sn blk})"
+        | (some (x, some ty), blk) => s!" (catch {nameStr x} {tyStr ty} {sn blk})"))
+      ++ (match fin with | none => "" | some fb => s!" (finally {sn fb})") ++ ")"
+  | .inlineVec xs => "(vec" ++ many xs ++ ")"
+  | .index a i => s!"(index {sn a} {sn i})"
+  | .noop => "(noop)"
+
 /-! ### running -/
 def showChaiVal (s : St) : Nat → Val → String
   | _, .undef => "undef" | _, .void => "void" | _, .int i => s!"i{i}" | _, .bool b => if b then "b1" else "b0" | _, .str k => s!"s{k}"
@@ -208,7 +278,18 @@ def excKindOfStr : String → ExcKind
 
 def globalsFor : List (Name × Loc) := [(2000, 0), (2001, 1), (2002, 2), (2100, 3), (2101, 4), (2102, 5), (2103, 6)]
 
-/-- line: `run <faultAt> <faultKind> <hints 0/1> <sexp...>` (a sequence of top-level statements) or `print <sexp...>` -/
+def buildProgram (stmts : List Sx) : Option (List Node × Build) :=
+  let b0 : Build := { heap := preludeCells }
+  let rec build (xs : List Sx) (b : Build) (acc : List Node) : Option (List Node × Build) :=
+    match xs with
+    | [] => some (acc.reverse, b)
+    | x :: r => match buildNode x b with
+      | some (n, b1) => build r b1 (n :: acc)
+      | none => none
+  build stmts b0 []
+
+/-- line: `run <faultAt> <faultKind> <flags> <sexp...>` (a sequence of top-level statements; flags: `1`/`0` = lookup hints on/off,
+    a trailing `n` = optimizer off), `tree <sexp...>` (both syntax trees) or `print <sexp...>` -/
 def chaiLine (line : String) : String :=
   let toks := tokenize line
   match toks with
@@ -216,20 +297,27 @@ def chaiLine (line : String) : String :=
       (match parseSx rest with
        | some (.list stmts, _) => ";\n".intercalate (stmts.map printSx)
        | _ => "bad-sexp")
-  | "run" :: fa :: fk :: hints :: rest =>
+  | "tree" :: rest =>
       (match parseSx rest with
        | some (.list stmts, _) =>
-          let b0 : Build := { heap := preludeCells }
-          let rec build (xs : List Sx) (b : Build) (acc : List Node) : Option (List Node × Build) :=
-            match xs with
-            | [] => some (acc.reverse, b)
-            | x :: r => match buildNode x b with
-              | some (n, b1) => build r b1 (n :: acc)
-              | none => none
-          (match build stmts b0 [] with
+          (match buildProgram stmts with
            | some (prog, b) =>
+              let (prog', funs', L') := optimizeProgram b.heap prog b.funs
+              let sh (L : Lits) (ρ : List FunDef) (p : List Node) : String := "(file" ++ String.join (p.map (fun x => " " ++ showNode L ρ x)) ++ ")"
+              s!"opt={sh L' funs' prog'}\tnoopt={sh b.heap b.funs prog}"
+           | none => "bad-build")
+       | _ => "bad-sexp")
+  | "run" :: fa :: fk :: flags :: rest =>
+      (match parseSx rest with
+       | some (.list stmts, _) =>
+          (match buildProgram stmts with
+           | some (prog0, b0) =>
+              let noopt := flags.endsWith "n"
+              let hints := flags.startsWith "1"
+              let (prog, funs, heap) := if noopt then (prog0, b0.funs, b0.heap) else optimizeProgram b0.heap prog0 b0.funs
+              let b : Build := { b0 with funs := funs, heap := heap }
               let kind : ExcKind := excKindOfStr fk
-              let s0 : St := { St.init b.heap with fault := ⟨fa.toNat?.getD 1000000, kind, fk == "boxed"⟩, useHints := hints == "1" }
+              let s0 : St := { St.init b.heap with fault := ⟨fa.toNat?.getD 1000000, kind, fk == "boxed"⟩, useHints := hints }
               let r := run b.funs 5000 (.seq prog) s0
               let names := ",".intercalate (((r.2.stacks.head?.bind List.head?).getD []).map (fun p => s!"x{p.1}"))
               let outs := ",".intercalate (r.2.out.map (showChaiVal r.2 3))
